@@ -138,7 +138,7 @@ PROPS = {
         "quick": {"workers": 8, "cases": 2500, "size": 30, "min_records": 12},
         "thorough": {"workers": 16, "cases": 30000, "size": 44, "min_records": 12},
         "min_nontrivial_frac": 0.3,
-        "rule": "histories of 4-24 steps over pools of <= 6 handles per BDD encoding built from three generated automata (<= 3-4 states): load into a fresh handle (dump must denote the generated language), "
+        "rule": "histories of 4-24 steps over pools of <= 6 handles per BDD encoding built from three generated automata (<= 4-5 states): load into a fresh handle (dump must denote the generated language), "
                 "copy-construct, copy-assign, Union (with/without maps), UnionDisjointStates (only when the two dumps taken before the call have disjoint state sets), Intersection, RemoveUnreachableStates, "
                 "RemoveUselessStates (no useless state may remain in the dump), GetTopDownAut, drop; after a copy/union/trim the next binary step is biased towards the handles sharing a table. Every expectation is formed from the "
                 "operand dumps taken immediately before the call; operands are re-dumped after the call. Non-trivial: some binary operation had an operand that shares its transition table with another live handle. "
@@ -189,7 +189,8 @@ PROPS = {
                 "table-driven leaf operations (arbitrary functions, max, min), Project (variable set, idempotent combiner max/min), Rename (strictly increasing map), ExtendWith (prefix cube above all variables of the operand), "
                 "GetMtbddForPrefix (concrete prefix), copy, assignment, destruction, VoidApply1/2 (visited leaves / leaf pairs = co-occurring values). After EVERY step GetValue on all 64 total assignments of every live handle "
                 "is compared with a truth-table model, operator==/!= between every pair of live handles must coincide with equality of the tables, and GetPaths of one handle must be a partition of the assignment space with the "
-                "right values. Non-trivial: the history contains an apply whose operands share sub-graphs and produces a function with >= 3 distinct leaves. Distinct: hash of the history.",
+                "right values; results of node-constructing operations (constructor, Project, Rename, ExtendWith, GetMtbddForPrefix, and a quarter of the others) must be EQUAL to the MTBDD rebuilt for the same truth table from constants "
+                "and if-then-else applies; functor objects are re-used across calls. Non-trivial: the history contains an apply whose operands share sub-graphs and produces a function with >= 3 distinct leaves. Distinct: hash of the history.",
         "assumptions": COMMON_ASSUMPTIONS + ["Project only with idempotent commutative associative combiners; Rename only with strictly increasing maps; ExtendWith only above all variables of the operand (the documented/observed domains)"],
     },
     "C18": {
@@ -197,11 +198,11 @@ PROPS = {
         "quick": {"workers": 8, "cases": 2000, "size": 50, "min_records": 8},
         "thorough": {"workers": 16, "cases": 30000, "size": 70, "min_records": 8},
         "min_nontrivial_frac": 0.3,
-        "rule": "histories over a pool of heap-allocated MTBDD handles restricted to the operations the property names: construct, constant, copy, assignment (incl. self-assignment and between handles sharing a root), "
-                "Apply1/2/3, destruction in generated order (also implicit destruction by overwriting a pool slot), read-only visitors; after every step all live handles must still equal their truth tables (ASan: no "
+        "rule": "histories over a pool of heap-allocated MTBDD handles: construct, constant, copy, assignment (incl. self-assignment and between handles sharing a root), "
+                "Apply1/2/3 and Project through functor OBJECTS that are re-used across calls (as library code does), destruction in generated order (also implicit destruction by overwriting a pool slot), read-only visitors; after every step all live handles must still equal their truth tables (ASan: no "
                 "use-after-free / double free); at the end every handle is destroyed and the sizes of the leaf and internal unique tables (hook LIBVATA_VERIF) must equal their values before the history. "
                 "Non-trivial: a handle sharing nodes with a live one is destroyed and the survivor is read afterwards. Distinct: hash of the history.",
-        "assumptions": COMMON_ASSUMPTIONS + ["the size law is asserted for handles created by construction, copy and apply only (Project may leave unreferenced nodes by design)"],
+        "assumptions": COMMON_ASSUMPTIONS + ["the size law is asserted for histories without Project (Project may leave unreferenced nodes by design; such histories are checked for values and ASan only)"],
     },
     "C13": {
         "harness": "c13",
